@@ -7,7 +7,9 @@ Line-protocol driver of C06. Input kinds (see harness/cmd/c06):
 
   kind=line id=0|1 ns=<unixnano> tag=<hex> sid=<uint64> f=<10 ints> via=api|raw   one sample through the real phout aggregator
   kind=str  ns=… tag=… sid=… f=… via=…                                            `(*Sample).String()` = appendPhout(s, nil, true)
-  kind=queue agg=phout|jsonlines g=<G> k=<K> q=<Q> …                              reporters × queue × aggregator
+  kind=seq   id=0|1 q=<Q> via=… s=<ns>:<taghex>:<sid>:<f,…>;…                      several samples, one phout aggregator, whole file
+  kind=queue agg=phout|jsonlines g=<G> k=<K> q=<Q> … [late=1] [sink=file] [fail=N]  reporters × queue × aggregator
+  kind=engine agg=… pools= inst= ammo= per= q= slow= cancel= seed=                  the real engine over the real aggregators
   kind=json n=<N> q=<Q> seed=<S>                                                  jsonlines, content level
   kind=proc sig=INT|TERM at=<ms> rps=<R>                                          the pandora binary, stopped by a signal
 -/
@@ -53,6 +55,28 @@ def handleLine (kv : List (String × String)) (impl : String) (str : Bool) : Str
     let obs' := if str then (match obs with | .bytes b => LineObs.bytes (b ++ [LF]) | o => o) else obs
     (modelLine m, judgeLine s withId obs')
 
+/-! ### several samples, one file -/
+
+def parseSeqSamples (s : String) : Option (List Sample) :=
+  (s.splitOn ";").mapM fun part =>
+    match part.splitOn ":" with
+    | [ns, tag, sid, f] => parseSample [("ns", ns), ("tag", tag), ("sid", sid), ("f", f)]
+    | _ => none
+
+def encodeAll (withId : Bool) : List Sample → Option Bytes
+  | [] => some []
+  | s :: rest => do
+      let l ← encode s withId
+      let r ← encodeAll withId rest
+      pure (l ++ r)
+
+def handleSeq (kv : List (String × String)) (impl : String) : String × String :=
+  match parseSeqSamples (getS kv "s") with
+  | none => ("-", "fail:driver:unparsable input")
+  | some ss =>
+    let withId := getS kv "id" == "1"
+    (modelLine (encodeAll withId ss), judgeSeq ss withId (parseLineObs impl))
+
 /-! ### queue cases: the model must be able to exhibit the observed outcome -/
 
 open Pandora.Model.AggQueue in
@@ -76,6 +100,11 @@ def modelQueue (kind : Kind) (g k q l d : Nat) : String :=
   let ret := st.phase == .returned
   s!"reports={st.log.length} lines={st.out.length} dropped={st.droppedCount} err={err} order=1 dup=0 bad=0 closed={if st.closed && ret && st.buf.isEmpty then 1 else 0}"
 
+def lateObs (ikv : List (String × String)) (reports lines dropped : Nat) : LateObs :=
+  { reports := reports, pre := (getN? ikv "pre").getD reports, lines := lines, dropped := dropped, err := getS ikv "err",
+    order := getS ikv "order" == "1", dup := (getN? ikv "dup").getD 1, bad := (getN? ikv "bad").getD 1,
+    closed := getS ikv "closed" == "1", miss := (getN? ikv "miss").getD reports }
+
 def parseW (s : String) : Option (List (Nat × Nat)) :=
   (splitList s ",").mapM fun t =>
     match t.splitOn "." with
@@ -92,6 +121,10 @@ def handleQueue (kv : List (String × String)) (impl : String) : String × Strin
   | some kind, some g, some k, some q =>
     match getN? ikv "reports", getN? ikv "lines", getN? ikv "dropped" with
     | some reports, some lines, some dropped =>
+      if (lookup kv "fail").isSome then ("-", judgeFailingSink (getS ikv "closed" == "1")) else
+      if getS kv "late" == "1" then
+        ("-", judgeLate kind (lateObs ikv reports lines dropped))
+      else
       let wtok := lookup ikv "w"
       let w := wtok.bind parseW
       if wtok.isSome && w.isNone then ("-", "fail:driver:unparsable sequence") else
@@ -105,8 +138,39 @@ def handleQueue (kv : List (String × String)) (impl : String) : String × Strin
       let m := if feasible then modelQueue kind g k q lines dropped else modelQueue kind g k q (g * k) 0
       let m := match wtok with | some t => s!"{m} w={t}" | none => m
       (m, judgeQueue i o)
-    | _, _, _ => ("-", s!"fail:crash:{(impl.take 120).toString}")
+    | _, _, _ =>
+      if (lookup ikv "inconclusive").isSome then ("-", "skip:inconclusive") else ("-", s!"fail:crash:{(impl.take 120).toString}")
   | _, _, _, _ => ("-", "fail:driver:unparsable input")
+
+/-! ### the real engine -/
+
+open Pandora.Model.AggQueue in
+/-- a run that ends by itself, nothing dropped: the queue model on the schedule "report, receive, …, cancel, drain" -/
+def modelEngineNatural (kind : Kind) (n q : Nat) : String :=
+  let progs : Nat → List Nat := fun r => if r = 0 then List.range n else []
+  let st := run { kind := kind, cap := q } (init progs) (witnessSchedule 1 n q n 0)
+  let err := match st.err with | none => "nil" | some d => s!"dropped:{d}"
+  let ret := st.phase == .returned
+  s!"run=nil reports={st.log.length} pre={st.log.length} lines={st.out.length} dropped={st.droppedCount} err={err} order=1 dup=0 bad=0 closed={if st.closed && ret && st.buf.isEmpty then 1 else 0} miss=0 aggret={if ret then 1 else 0}"
+
+def handleEngine (kv : List (String × String)) (impl : String) : String × String :=
+  let ikv := parseKV impl
+  let kind? : Option Pandora.Model.AggQueue.Kind := match getS kv "agg" with
+    | "phout" => some .phout
+    | "jsonlines" => some .encoder
+    | _ => none
+  match kind?, getN? kv "pools", getN? kv "ammo", getN? kv "per", getN? kv "q" with
+  | some kind, some pools, some ammo, some per, some q =>
+    match getN? ikv "reports", getN? ikv "lines", getN? ikv "dropped" with
+    | some reports, some lines, some dropped =>
+      let cancelled := getS kv "cancel" != "-1"
+      let o := lateObs ikv reports lines dropped
+      -- a run that ends by itself without drops is fully determined: all pools × ammo × per reports, each one line
+      let n := pools * ammo * per
+      let m := if !cancelled && dropped == 0 then modelEngineNatural kind n (max q n) else "-"
+      (m, judgeEngine kind (getS ikv "run") (getS ikv "aggret" == "1") cancelled o)
+    | _, _, _ => ("-", s!"fail:crash:{(impl.take 120).toString}")
+  | _, _, _, _, _ => ("-", "fail:driver:unparsable input")
 
 def handleJson (kv : List (String × String)) (impl : String) : String × String :=
   let ikv := parseKV impl
@@ -155,6 +219,8 @@ def handle : Handler := fun input impl =>
   | "line" => handleLine kv impl false
   | "str" => handleLine kv impl true
   | "queue" => handleQueue kv impl
+  | "seq" => handleSeq kv impl
+  | "engine" => handleEngine kv impl
   | "json" => handleJson kv impl
   | "proc" => handleProc kv impl
   | k => ("-", s!"fail:driver:unknown kind {k}")
